@@ -125,7 +125,8 @@ impl AnnotationKinds {
             AnnotationKinds::Hash => vec!["Hash"],
             AnnotationKinds::FieldElement => vec!["Field Element"],
             AnnotationKinds::FieldElements => vec!["Field Elements"],
-            AnnotationKinds::DataAndHash => vec!["Data", "Hash"],
+            // One pattern, so that the values keep their order in the stream.
+            AnnotationKinds::DataAndHash => vec!["(?:Data|Hash)"],
         }
     }
 }
